@@ -164,7 +164,8 @@ def interp_1d_conservative(phi, theta, target_theta_bins):
 
     # flip target_theta_bins if needed (only needed for the conservative method,
     # np.interp handles this by itself)
-    target_diff = np.diff(target_theta_bins)
+    # (differences are taken in floating point: unsigned integers would wrap around)
+    target_diff = np.diff(np.asarray(target_theta_bins, dtype=float))
     if all(target_diff < 0):
         flip_switch = True
         target_theta_bins = target_theta_bins[::-1]
